@@ -23,7 +23,7 @@ def main():
     tot = ok = 0
     for f in V.functions_with_contracts():
         name = V.display_name(f)
-        if a.only and a.only not in name:
+        if a.only and not any(x in name for x in a.only.split(",")):
             continue
         t1 = time.time()
         rec = V.verify_function(f)
